@@ -197,7 +197,8 @@ def attach(p, fdef):
             k = d['kind']
             if k == 'assign':
                 ex(d['e'], s.value)
-                ex(d['tgt'], s.targets[0])
+                for t, n2 in zip(d['tgts'], s.targets, strict=True):
+                    ex(t, n2)
             elif k == 'aug':
                 ex(d['e'], s.value)
                 ex(d['tgt'], s.target)
